@@ -243,9 +243,15 @@ def recompose(scheme, authority, path, query, fragment):
     return r
 
 
+_BASES = {}
+
+
 def resolve(base, ref):
     """RFC 3986 5.2.2 with a strict parser."""
-    bs, ba, bp, bq, _bf = parse_ref(base)
+    b = _BASES.get(base)
+    if b is None:
+        b = _BASES[base] = parse_ref(base)
+    bs, ba, bp, bq, _bf = b
     rs, ra, rp, rq, rf = parse_ref(ref)
     if rs is not None:
         t = (rs, ra, remove_dot_segments(rp), rq)
